@@ -2,66 +2,71 @@
 (***************************************************************************)
 (* C16 and C20 on recorded port-level behaviour.                           *)
 (* C16: one SerialSignBus::process_message call per segment                *)
-(*   pm    {m, rx}          the message; bytes waiting on the receive side *)
+(*   pm    {m, rx, wire}    the message; bytes waiting on the receive side;*)
+(*                          the message's own frame encoding with CR LF    *)
 (*   pw    {data, ret}      a write call on the port (-2: injected fault)  *)
 (*   pr    {req, ret}       a read call (-2 fault, -3 time-out)            *)
-(*   pmret {res, txd, rxleft}                                              *)
+(*   pmret {res, txd, rxleft, line, direct}  direct = decoding of the line *)
 (* C20: one port set-up per segment                                        *)
 (*   setup {ctor, prior, timeout_ms, fail}; dev {call, ok}; setupret {...} *)
 (***************************************************************************)
 EXTENDS Serial, TraceBase
 
-VARIABLES l, m, rx, txd, consumed, nreads, fault, su, failed
-vars == <<l, m, rx, txd, consumed, nreads, fault, su, failed>>
+\* wire: the message's own frame encoding with CR LF, as the library's Message -> Frame -> bytes conversion gives it
+VARIABLES l, m, rx, wire, txd, consumed, nreads, fault, su, failed
+vars == <<l, m, rx, wire, txd, consumed, nreads, fault, su, failed>>
 
 NoSetup == [ctor |-> "", timeout_ms |-> 0]
-Init == l = 1 /\ m = NoReply /\ rx = <<>> /\ txd = <<>> /\ consumed = 0 /\ nreads = 0 /\ fault = FALSE /\ su = NoSetup /\ failed = FALSE
+Init == l = 1 /\ m = NoReply /\ rx = <<>> /\ wire = <<>> /\ txd = <<>> /\ consumed = 0 /\ nreads = 0 /\ fault = FALSE /\ su = NoSetup /\ failed = FALSE
 
 E == Rec[l]
 IsEvent(name) == l <= NRec /\ E.e = name /\ l' = l + 1
 
 PMEv == /\ IsEvent("pm")
-        /\ m' = E.m /\ rx' = E.rx /\ txd' = <<>> /\ consumed' = 0 /\ nreads' = 0 /\ fault' = FALSE
+        /\ m' = E.m /\ rx' = E.rx /\ wire' = E.wire /\ txd' = <<>> /\ consumed' = 0 /\ nreads' = 0 /\ fault' = FALSE
         /\ UNCHANGED <<su, failed>>
 
 PW == /\ IsEvent("pw")
       /\ IF E.ret >= 0 THEN txd' = txd \o SubSeq(E.data, 1, E.ret) /\ UNCHANGED fault
          ELSE fault' = TRUE /\ UNCHANGED txd
-      /\ IsPrefix(txd', MsgWireNL(m))                  \* nothing but the message's frame is ever written
+      /\ IsPrefix(txd', wire)                          \* nothing but the message's frame is ever written
       /\ nreads = 0                                    \* and it is written before anything is read
-      /\ UNCHANGED <<m, rx, consumed, nreads, su, failed>>
+      /\ UNCHANGED <<m, rx, wire, consumed, nreads, su, failed>>
 
 PR == /\ IsEvent("pr")
       /\ ResponseExpected(m)                           \* a read happens only when a reply is due
-      /\ txd = MsgWireNL(m)                            \* and only after the whole frame went out
+      /\ txd = wire                                    \* and only after the whole frame went out
       /\ nreads' = nreads + 1
       /\ IF E.ret > 0 THEN consumed' = consumed + E.ret /\ consumed' <= Len(LineFrom(rx, 0)) /\ UNCHANGED fault
          ELSE consumed' = consumed /\ fault' = (fault \/ E.ret = -2)
-      /\ UNCHANGED <<m, rx, txd, su, failed>>
+      /\ UNCHANGED <<m, rx, wire, txd, su, failed>>
 
 PMRet ==
     /\ IsEvent("pmret")
     /\ E.txd = txd
     /\ E.rxleft = Len(rx) - consumed
     /\ IF fault THEN E.res.k = "Err"                   \* a write or read failure is an error, not a missing reply
-       ELSE /\ txd = MsgWireNL(m)                      \* exactly one frame out
+       ELSE /\ txd = wire                              \* exactly one frame out
             /\ IF ResponseExpected(m)
                THEN /\ consumed = Len(LineFrom(rx, 0)) \* exactly one line in
-                    /\ E.res = PM(m, rx).res           \* its decoding, or an error if it cannot be decoded / nothing came
+                    /\ E.line = LineFrom(rx, 0)
+                    \* its decoding (direct = what the library's own decoder and message mapping say of that line),
+                    \* or an error if it cannot be decoded / nothing came
+                    /\ E.res = (IF E.line = <<>> THEN ErrReply ELSE E.direct)
                ELSE nreads = 0 /\ E.res = NoReply
-    /\ UNCHANGED <<m, rx, txd, consumed, nreads, fault, su, failed>>
+    /\ UNCHANGED <<m, rx, wire, txd, consumed, nreads, fault, su, failed>>
 
 SetupEv == /\ IsEvent("setup")
            /\ su' = [ctor |-> E.ctor, timeout_ms |-> E.timeout_ms] /\ failed' = FALSE
-           /\ UNCHANGED <<m, rx, txd, consumed, nreads, fault>>
+           /\ UNCHANGED <<m, rx, wire, txd, consumed, nreads, fault>>
 DevEv == /\ IsEvent("dev")
          /\ failed' = (failed \/ ~E.ok)
-         /\ UNCHANGED <<m, rx, txd, consumed, nreads, fault, su>>
+         /\ UNCHANGED <<m, rx, wire, txd, consumed, nreads, fault, su>>
 SetupRet ==
     /\ IsEvent("setupret")
     /\ SetupOK([res |-> E.res, port |-> E.final, timeout |-> E.timeout_set], failed)
     /\ (E.res = "ok" /\ su.ctor = "configure_port" => E.timeout_ms = su.timeout_ms)    \* the caller's value when configured directly
-    /\ UNCHANGED <<m, rx, txd, consumed, nreads, fault, su, failed>>
+    /\ UNCHANGED <<m, rx, wire, txd, consumed, nreads, fault, su, failed>>
 
 Next == PMEv \/ PW \/ PR \/ PMRet \/ SetupEv \/ DevEv \/ SetupRet
 Spec == Init /\ [][Next]_vars
